@@ -195,6 +195,9 @@ func (b *builder) build(goal ast.Atom, depth int) []*ProofNode {
 		b.cache[h] = proofs
 		return proofs
 	}
+	// A fact can be derived several times, also by rule firings that depend on
+	// the fact itself. Complete proofs take precedence over partial ones.
+	var partial []*ProofNode
 	for _, ev := range events {
 		if len(proofs) >= b.opts.MaxProofs {
 			break
@@ -202,6 +205,16 @@ func (b *builder) build(goal ast.Atom, depth int) []*ProofNode {
 		p := b.buildFromEvent(ev, depth)
 		if p == nil {
 			continue
+		}
+		if hasPartial(p, make(map[*ProofNode]bool)) {
+			partial = append(partial, p)
+			continue
+		}
+		proofs = append(proofs, p)
+	}
+	for _, p := range partial {
+		if len(proofs) >= b.opts.MaxProofs {
+			break
 		}
 		proofs = append(proofs, p)
 	}
@@ -375,6 +388,23 @@ func (b *builder) buildDo(ev *Event, ruleID string, depth int) *ProofNode {
 	}
 	node.ID = derivedProofID(ruleID, ev.Output, premiseProofs)
 	return node
+}
+
+// hasPartial returns true if the proof or one of its sub-proofs is partial.
+func hasPartial(n *ProofNode, seen map[*ProofNode]bool) bool {
+	if n == nil || seen[n] {
+		return false
+	}
+	seen[n] = true
+	if n.Partial {
+		return true
+	}
+	for _, p := range n.Premises {
+		if hasPartial(p, seen) {
+			return true
+		}
+	}
+	return false
 }
 
 // firstMatch returns a stored fact that matches the pattern.
